@@ -471,6 +471,12 @@ func genMisc(t *rapid.T, cfg ScriptCfg) (op Op, ok bool) {
 		return Op{K: OpReqCtx, S: "k", S2: rapid.StringMatching(`[a-z]{1,3}`).Draw(t, "rv")}, true
 	case OpSetParam:
 		return Op{K: OpSetParam, S: rapid.SampledFrom([]string{"id", "zz"}).Draw(t, "pk"), S2: rapid.StringMatching(`[a-z]{1,3}`).Draw(t, "pv")}, true
+	case OpAddError:
+		// now and then a burst of errors (more than any small pre-allocated list)
+		if rapid.IntRange(0, 7).Draw(t, "errorBurst") == 0 {
+			return Op{K: OpAddError, N: rapid.IntRange(9, 20).Draw(t, "nErrors")}, true
+		}
+		return Op{K: OpAddError}, true
 	default:
 		return Op{K: k}, true
 	}
@@ -786,6 +792,11 @@ func Requests(t *rapid.T, pm *PModel, extra int) [][2]string {
 			continue
 		}
 		out = append(out, [2]string{rapid.SampledFrom(model.Methods[:7]).Draw(t, "probeMethod"), path})
+	}
+	// a request path longer than any small limit (1.1-3 KB): a 404 like any other, with the global middleware around it
+	if extra > 0 && rapid.IntRange(0, 4).Draw(t, "longMissPath") == 0 {
+		path := "/zz-" + strings.Repeat("long-segment/", rapid.IntRange(85, 230).Draw(t, "longSegs")) + "end"
+		out = append(out, [2]string{rapid.SampledFrom(model.Methods[:7]).Draw(t, "longMethod"), path})
 	}
 	return out
 }
